@@ -29,7 +29,8 @@ impl Args {
                     i += 1;
                 }
             } else {
-                eprintln!("ignoring stray argument {:?}", a);
+                // (ignored silently: standard error may be unwritable on purpose)
+                let _ = a;
                 i += 1;
             }
         }
